@@ -197,7 +197,7 @@ func cmdC01(args []string) {
 	delete(bad, "base")
 	scaled := 0
 	for n, t := range tests {
-		c01DoTest(res, t, base, bad)
+		c01DoTest(res, t, base, bad, true)
 		distinct[fmt.Sprint("T", t.Ps, t.Bad, t.Cut, t.Chunks)] = true
 		// the same behaviour at large payload sizes (every behaviour with a payload in the thorough tier, one in
 		// three otherwise; the sizes walk the ladder with the behaviour's number and the seed)
@@ -215,7 +215,7 @@ func cmdC01(args []string) {
 			}
 		}
 		u := c01Scaled(t, big)
-		c01DoTest(res, u, base, bad)
+		c01DoTest(res, u, base, bad, hlib.Thorough() || scaled%4 == 0)
 		distinct[fmt.Sprint("T", u.Ps, u.Bad, u.Cut, u.Chunks)] = true
 		scaled++
 	}
@@ -346,7 +346,7 @@ func c01Scaled(t c01Test, big []int) c01Test {
 // and its neighbours, a few hundred kilobytes), none of them a multiple of the others.
 var c01Ladder = []int{4095, 4097, 65535, 65536, 65537, 100000, 131073, 196609, 70001, 300007}
 
-func c01DoTest(res *hlib.Result, t c01Test, base []byte, bad map[string][]byte) {
+func c01DoTest(res *hlib.Result, t c01Test, base []byte, bad map[string][]byte, withBuffer bool) {
 	kinds := []string{"none"}
 	if t.Bad != "none" {
 		kinds = kinds[:0]
@@ -357,34 +357,47 @@ func c01DoTest(res *hlib.Result, t c01Test, base []byte, bad map[string][]byte) 
 	for _, kind := range kinds {
 		// every behaviour twice: a fresh Message per read, and ONE Message value read into again and again
 		// (what it held before must not matter: reading is a function of the bytes)
-		for _, reuse := range []bool{false, true} {
-			res.Evaluations++
-			var stream []byte
-			var msgs []net.Message
-			for i, pl := range t.Ps {
-				h := net.NewHeader(net.Call, 1, 1, 0x01020304, 0x01020304)
-				m := net.NewMessage(h, c01Payload(i, pl))
-				msgs = append(msgs, m)
-				var buf bytes.Buffer
-				if err := m.Write(&buf); err != nil {
-					res.Fail("framing/write-error", err.Error(), t)
-					return
-				}
-				stream = append(stream, buf.Bytes()...)
-			}
-			if kind != "none" {
-				stream = append(stream, bad[kind]...)
-				stream = append(stream, 0xAA, 0xBB, 0xCC)
-			}
-			if t.Cut > len(stream) {
-				res.Fail("framing/stream-length", fmt.Sprintf("stream is %d bytes, specification says >= %d", len(stream), t.Cut), t)
+		var stream []byte
+		var msgs []net.Message
+		for i, pl := range t.Ps {
+			h := net.NewHeader(net.Call, 1, 1, 0x01020304, 0x01020304)
+			m := net.NewMessage(h, c01Payload(i, pl))
+			msgs = append(msgs, m)
+			var buf bytes.Buffer
+			if err := m.Write(&buf); err != nil {
+				res.Fail("framing/write-error", err.Error(), t)
 				return
 			}
-			stream = stream[:t.Cut]
+			stream = append(stream, buf.Bytes()...)
+		}
+		if kind != "none" {
+			stream = append(stream, bad[kind]...)
+			stream = append(stream, 0xAA, 0xBB, 0xCC)
+		}
+		if t.Cut > len(stream) {
+			res.Fail("framing/stream-length", fmt.Sprintf("stream is %d bytes, specification says >= %d", len(stream), t.Cut), t)
+			return
+		}
+		stream = stream[:t.Cut]
+		// and once more from a *bytes.Buffer holding the whole stream - a reader whose concrete type an
+		// implementation may recognise (the library's own buffers are of that type)
+		for variant := 0; variant < 3; variant++ {
+			reuse, fromBuffer := variant == 1, variant == 2
+			if fromBuffer && !withBuffer {
+				continue
+			}
+			res.Evaluations++
 			script := make([][]int, len(t.Chunks))
 			copy(script, t.Chunks)
 			r := &scriptReader{data: stream, script: script}
-			cse := map[string]interface{}{"ps": t.Ps, "bad": kind, "cut": t.Cut, "chunks": t.Chunks, "exp": t.Exp, "reused_message": reuse}
+			var rd io.Reader = r
+			pos := func() int { return r.pos }
+			if fromBuffer {
+				bb := bytes.NewBuffer(append(make([]byte, 0, len(stream)), stream...))
+				rd = bb
+				pos = func() int { return len(stream) - bb.Len() }
+			}
+			cse := map[string]interface{}{"ps": t.Ps, "bad": kind, "cut": t.Cut, "chunks": t.Chunks, "exp": t.Exp, "reused_message": reuse, "from_bytes_buffer": fromBuffer}
 			decoded := 0
 			final := ""
 			var shared net.Message
@@ -398,7 +411,7 @@ func c01DoTest(res *hlib.Result, t c01Test, base []byte, bad map[string][]byte) 
 				if reuse {
 					mp = &shared
 				}
-				err := mp.Read(r)
+				err := mp.Read(rd)
 				m := *mp
 				if err == nil {
 					if decoded >= len(msgs) {
@@ -411,8 +424,8 @@ func c01DoTest(res *hlib.Result, t c01Test, base []byte, bad map[string][]byte) 
 						res.Fail("framing/lossy", fmt.Sprintf("message %d read back different: %+v", decoded, m.Header), cse)
 					}
 					decoded++
-					if decoded <= len(t.Exp.Ends) && r.pos != t.Exp.Ends[decoded-1] {
-						res.Fail("framing/consumed", fmt.Sprintf("after message %d the reader consumed %d bytes, expected %d", decoded, r.pos, t.Exp.Ends[decoded-1]), cse)
+					if decoded <= len(t.Exp.Ends) && pos() != t.Exp.Ends[decoded-1] {
+						res.Fail("framing/consumed", fmt.Sprintf("after message %d the reader consumed %d bytes, expected %d", decoded, pos(), t.Exp.Ends[decoded-1]), cse)
 					}
 					continue
 				}
@@ -444,8 +457,8 @@ func c01DoTest(res *hlib.Result, t c01Test, base []byte, bad map[string][]byte) 
 					res.Fail("framing/bad-header-accepted", "defective header ("+kind+") not refused", cse)
 				}
 			}
-			if r.pos > t.Exp.Maxpos {
-				res.Fail("framing/overread", fmt.Sprintf("consumed %d bytes, at most %d allowed (defective header must be refused before the payload)", r.pos, t.Exp.Maxpos), cse)
+			if pos() > t.Exp.Maxpos {
+				res.Fail("framing/overread", fmt.Sprintf("consumed %d bytes, at most %d allowed (defective header must be refused before the payload)", pos(), t.Exp.Maxpos), cse)
 			}
 			if (kind == "none" || kind == "oversize") && len(t.Chunks) > 3 {
 				res.Sample(fmt.Sprint(cse))
